@@ -68,10 +68,11 @@ HARNESSES = [
                 for f in (0, 1) for n in range(4, 9)]),
     dict(name="stream", file="stream.c", include_dirs=["bin/gensquashfs/src"],
          fp={"get_filename": "stub_filename", "destroy": "stub_filename"},
-         label="bounded(len<=3)", timeout=900,
+         label="bounded(len<=1)", timeout=2400,
          unwindset=["fstree_from_file_stream.0:3"],
          cases=[dict(id="eol%d_len%d" % (e, n), defines={"EOL": e, "LEN": n},
-                     unwind=2 * n + 18, tier="quick" if n <= 2 else "thorough")
+                     unwind=2 * n + 18, tier="quick" if n <= 1 else "thorough",
+                     label="bounded(len<=%d)" % (1 if n <= 1 else 3))
                 for e in (0, 1) for n in (1, 2, 3)]),
     dict(name="handle_line", file="handle_line.c",
          include_dirs=["bin/gensquashfs/src"],
